@@ -429,6 +429,9 @@ def closure_problems(db, enum_vectors=None, check_consecutive=True):
             continue
         for prm in w["parameters"]:
             if prm["flags"] & PF_is_this and prm["type"] != 0:
+                tt = ty.get(strip(prm["type"]))
+                if tt is not None and (tt["flags"] & F_atomic):
+                    continue      # -c passes TypeHandle/ButtonHandle objects as their int index, `this` included
                 if strip(prm["type"]) != f["class"]:
                     probs.append("wrapper %d of function %d (%s): `this` has type %d, the function's class is %d"
                                  % (wi, w["function"], f["scoped_name"], strip(prm["type"]), f["class"]))
